@@ -35,7 +35,30 @@ def routeAnswer (mtxt hp : String) (notFoundBody : String) : Option String := do
       pure (s!"405 body={toHex (bytes "Method Not Allowed")} allow={"+".intercalate names}" ++ tail)
     | .notFound => pure (s!"404 body={toHex (bytes notFoundBody)}" ++ tail)
 
+/-- the accessor routes of harness/drv_mt.cc `opRouteP` -/
+def accessorTable : Option Node := do
+  let add (n : Node) (p : String) (h : Nat) : Option Node := match addRoute n (bytes p) h with | .ok t => some t | .error _ => none
+  let t1 ← add [] "/u/:idx/:id/*/*" 1
+  add t1 "/w/:name" 2
+
+def str (b : List Nat) : String := String.ofList (b.map Char.ofNat)
+
 def serveOp : List String → Option String
+  | ["routep", hp] => do
+    let path ← fromHex hp
+    let t ← accessorTable
+    match lookup false t path with
+    | none => pure s!"404 body={toHex (bytes "Could not find a matching route")}"
+    | some f =>
+      -- Request::param(name) / hasParam(name): the binding whose name EQUALS the asked one; splat(): the wildcard bindings in path order
+      let par (n : String) : List Nat := ((f.params.find? (fun p => p.1 == bytes n)).map (·.2)).getD []
+      let has (n : String) : String := if f.params.any (fun p => p.1 == bytes n) then "1" else "0"
+      if f.handler == 1 then
+        let b := s!"idx={str (par ":idx")} id={str (par ":id")} hid={has ":id"} hi={has ":i"} hidx={has ":idx"} n={f.splats.length} s0={str (f.splats.getD 0 [])} s1={str (f.splats.getD 1 [])}"
+        pure s!"200 body={toHex (bytes b)}"
+      else
+        let b := s!"name={str (par ":name")} hn={has ":n"} hname={has ":name"}"
+        pure s!"200 body={toHex (bytes b)}"
   -- a custom not-found handler only replaces the default 404 answer: the 405 decision comes first
   | ["routenf", mtxt, hp] => routeAnswer mtxt hp "custom-nf"
   | ["route", mtxt, hp] => do
